@@ -827,6 +827,43 @@ func c14Gen(r *Rand, tier string) []interface{} {
 		out = append(out, in)
 		c14Batch = append(c14Batch, in)
 	}
+	// 3b. staggered failures: two failures of one backend recorded at different times; probes between
+	// the two expiry instants (the first must be gone, the second must still count) and after both
+	att := func(t int, o string, again bool) []c14Adv {
+		a := c14Adv{T: t, O: o, Again: again}
+		return []c14Adv{a, a, a}
+	}
+	for i := 0; i < nTimed/2; i++ {
+		ft := r.Range(2, 3)
+		a := r.Range(1, ft-1)
+		in := &c14In{Kind: "sched", Hosts: r.Range(1, 2), Threads: 3, MC: []int64{0, 0, 3}[r.Intn(3)], FT: ft, Policy: r.Pick([]string{"first", "round_robin"})}
+		var st []c14Adv
+		if i%2 == 0 {
+			// sequential attempts, max_fails >= 2 so that the backend is still used after the first failure
+			in.MF = r.Range(2, 3)
+			st = append(st, att(0, "e", true)...)
+			st = append(st, c14Adv{T: -1, Wait: a})
+			if in.Hosts == 2 {
+				st = append(st, att(0, "e", true)...) // first/round robin may pick either host; a third failure keeps both busy
+			}
+			st = append(st, att(1, "e", r.Bool())...)
+		} else {
+			// two requests already in flight on the backend fail one after the other (max_fails 1: down after the first)
+			in.MF = r.Range(1, 2)
+			in.Hosts = 1
+			st = append(st, c14Adv{T: 0}, c14Adv{T: 0}, c14Adv{T: 1}, c14Adv{T: 1})
+			st = append(st, c14Adv{T: 0, O: "e", Again: r.Bool()})
+			st = append(st, c14Adv{T: -1, Wait: a})
+			st = append(st, c14Adv{T: 1, O: "e", Again: r.Bool()})
+		}
+		st = append(st, c14Adv{T: -1, Wait: ft - a})
+		st = append(st, c14Adv{T: 2, O: "s"}, c14Adv{T: 2, O: "s"}) // probe: Select (and begin) between the two expiries
+		st = append(st, c14Adv{T: -1, Wait: a})
+		st = append(st, att(2, "s", false)...)
+		in.Steps = st
+		out = append(out, in)
+		c14Batch = append(c14Batch, in)
+	}
 	// 4. configuration values
 	for _, n := range []int64{-1, 0, 1, 2, 3, 100, 1<<31 - 1, 1 << 31, 1<<31 + 1, 1<<32 - 1, 1 << 32, 1<<32 + 1, 1<<32 + 2, 1 << 33, 1<<63 - 1} {
 		ks := []int64{0, 1, 2, 3, 1<<31 - 1}
